@@ -1,11 +1,19 @@
 (* C11: every mutable field of solutionImpl gets storage of its own in Copy. *)
 From Coq Require Import List String Bool.
 From NR Require Import Model.Skeleton Model.Discipline Model.RefSkeletons.
-From NR Require Import Gen.Skeleton_parallel Gen.Skeleton_solver Gen.Skeleton_seqgen Gen.Skeleton_wrapper Gen.Skeleton_copy.
+From NR Require Import Gen.Skeleton_parallel Gen.Skeleton_solver Gen.Skeleton_seqgen Gen.Skeleton_wrapper Gen.Skeleton_copy Gen.Skeleton_modelwrites.
 Import ListNotations.
 Open Scope string_scope.
 
 Lemma c11_table_matches : copy_table = copy_table_ref.
 Proof. vm_compute. reflexivity. Qed.
 Lemma c11_discipline : copy_violations copy_table = [].
+Proof. vm_compute. reflexivity. Qed.
+
+(* a copy is independent of its original only if nothing that works on a
+   solution draws from the MODEL's random source, which every solution of the
+   model shares: the call sites of Random() on the model are the reviewed ones
+   (the seeding of a new solution; repaired defect 61922db was such a site in
+   the first-move search of a stop group) *)
+Lemma c11_model_random_uses_reviewed : model_random_uses = model_random_uses_ref.
 Proof. vm_compute. reflexivity. Qed.
